@@ -49,9 +49,9 @@ Judge(e) ==
                           /\ e.status = "ok" /\ n >= 1 /\ e.calls[n] = <<"f">> /\ writes(n - 1) /\ CatCalls(e.calls, 1) = full
                      ELSE IF fits THEN
                           \* the user's finalize fails: all bytes delivered, the failure surfaces as an error (mapped to buffer-full)
-                          /\ e.status = "BufferFull" /\ n >= 1 /\ e.calls[n] = <<"f">> /\ writes(n - 1) /\ CatCalls(e.calls, 1) = full
+                          /\ e.status \notin {"ok", "panic"} /\ n >= 1 /\ e.calls[n] = <<"f">> /\ writes(n - 1) /\ CatCalls(e.calls, 1) = full
                      ELSE \* the flavour refuses a write: an error, a prefix delivered, nothing after the refusal, no finalize
-                          /\ e.status = "BufferFull" /\ n >= 1 /\ e.calls[n][1] = "x" /\ writes(n - 1)
+                          /\ e.status \notin {"ok", "panic"} /\ n >= 1 /\ e.calls[n][1] = "x" /\ writes(n - 1)
                           /\ LET got == CatCalls(e.calls, 1) IN
                                /\ Len(got) <= e.room /\ Len(got) <= Len(full) /\ got = SubSeq(full, 1, Len(got))
                                /\ Len(got) + e.calls[n][2] > e.room
